@@ -28,8 +28,8 @@ structure Closed (T : Table) (FP : Frame → Prop) (R : CmdDef → Attach → Fr
   value : ∀ (f : Frame) (ld : List Bytes) (t : ArgType) (v : AVal) (st' : CState) (pl : Placement),
     FP f → Consistent t v → (∀ n, v ≠ .test n) →
     checkNextArg f.d ld f.st t v = .ok (some (st', pl)) → FP { f with st := st' }
-  dry : ∀ (f : Frame) (ld : List Bytes) (v : AVal) (st' : CState) (pl : Placement), FP f →
-    checkNextArg f.d ld f.st .test v (add := false) = .ok (some (st', pl)) → FP { f with st := st' }
+  dry : ∀ (f : Frame) (ld : List Bytes) (n : Node) (st' : CState) (pl : Placement), FP f →
+    checkNextArg f.d ld f.st .test (.test n) (add := false) = .ok (some (st', pl)) → FP { f with st := st' }
   plug : ∀ p f : Frame, FP p → FP f → R f.d f.attach p → FP (plug p f.attach (Frame.toNode f))
   reassign : ∀ f f', FP f → reassign f = some f' → FP f'
   record : ∀ (f : Frame) (res : List Node) (c : List Bytes), FP f → BP f.d f.attach res → ResP res →
